@@ -121,7 +121,10 @@ func GateSpecs(c *Ctx, prop string) []GateSpec {
 		s = rets("(*sign/dss.DSS).ProcessPartialSig", "(*sign/dss.DSS).Signature", "(*sign/dss.DSS).EnoughPartialSig", "sign/dss.NewDSS", "sign/dss.findPub", "sign/dss.Verify")
 		s = append(s,
 			GateSpec{Func: "(*sign/dss.DSS).ProcessPartialSig", Sink: `mapupdate:\.partialsIdx$`, NoRet: true},
-			GateSpec{Func: "(*sign/dss.DSS).ProcessPartialSig", Sink: `append:\.partials$`, NoRet: true})
+			GateSpec{Func: "(*sign/dss.DSS).ProcessPartialSig", Sink: `append:\.partials$`, NoRet: true},
+			// the signer's own partial must be recorded (index marked, partial stored) when it is produced
+			GateSpec{Func: "(*sign/dss.DSS).PartialSig", Sink: `mapupdate:\.partialsIdx$`, NoRet: true},
+			GateSpec{Func: "(*sign/dss.DSS).PartialSig", Sink: `append:\.partials$`, NoRet: true})
 	case "C13":
 		s = rets("(*proof/dleq.Proof).Verify", "share/pvss.VerifyEncShare", "share/pvss.VerifyDecShare", "share/pvss.DecShare",
 			"share/pvss.VerifyEncShareBatch", "share/pvss.DecShareBatch", "share/pvss.VerifyDecShareBatch", "share/pvss.RecoverSecret",
